@@ -10,7 +10,7 @@ from vlib.shim import ShimCrash
 ID = "C20"
 LEVEL = "exploration"
 CONFIGS = {"quick": ["san", "san_nv"], "thorough": ["san", "san_nv", "mx_i64"]}
-EXTRA_BUILDS = ["tsan", "tsan_noasm", "so", "so_tsan", "vg"]
+EXTRA_BUILDS = ["tsan", "tsan_noasm", "so", "so_tsan", "vg", "vgv"]
 RULE = ("a probe suite (one fixed-input call of every API family, ~150 calls) is replayed on every live context after each step of random context histories over "
         "{create, preallocated create, clone, preallocated clone, randomize(seed / zero / NULL), install a correct / an incorrect / reset the SHA-256 compression "
         "function, destroy} and must reproduce the golden outputs of a fresh context byte for byte; every probe is run on secp256k1_context_static (child process, "
@@ -100,7 +100,7 @@ def build_probes(ctx, config):
     add("s2c_sign", msg, sk1, rnd, 1); add("s2c_verify_commit", s2.b(1), rnd, s2.b(2)); add("ae_host_commit", rnd); add("ae_signer_commit", msg, sk1, hc); add("ae_sign", msg, sk1, rnd); add("ae_host_verify", s2.b(1), msg, pk1, rnd, so)
     add("s2c_opening_parse", ops); add("s2c_opening_serialize", s2.b(2))
     ad = C("adaptor_encrypt", sk1, pk2, msg, 0, aux).b(1); dsig = C("adaptor_decrypt", sk2, ad).b(1)
-    add("adaptor_encrypt", sk1, pk2, msg, 0, aux); add("adaptor_verify", ad, pk1, msg, pk2); add("adaptor_decrypt", sk2, ad); add("adaptor_recover", dsig, ad, pk2)
+    add("adaptor_encrypt", sk1, pk2, msg, 0, aux); add("adaptor_encrypt", sk1, pk2, msg, 0, None, label="adaptor_encrypt_noaux"); add("adaptor_encrypt", sk1, pk2, msg, 1, None, label="adaptor_encrypt_explicit_noncefp_noaux"); add("adaptor_verify", ad, pk1, msg, pk2); add("adaptor_decrypt", sk2, ad); add("adaptor_recover", dsig, ad, pk2)
     ka = C("musig_pubkey_agg", pk1 + pk2, 2, 1, 1); kac = ka.b(2); kt = C("musig_tweak_add", kac, tw, 1, 1); kac2 = kt.b(2)
     n1 = C("musig_nonce_gen", None, 1, rnd, sk1, pk1, msg, kac2, aux); n2 = C("musig_nonce_gen_counter", None, 1, 5, kp2, msg, kac2, None)
     an = C("musig_nonce_agg", n1.b(2) + n2.b(2), 2).b(1); se = C("musig_nonce_process", an, msg, kac2, pk3).b(1)
@@ -374,6 +374,13 @@ def run(ctx):
         wl_static(ctx, config, probes, gold)
         if first:
             wl_threads(ctx, probes); wl_global(ctx); first = False
+            if ctx.shard == 5 % ctx.nshards:
+                # results depend only on arguments - not on stack or heap residue either: the probe suite (twice, in two orders) replayed under
+                # memcheck; a value derived from uninitialised memory that reaches a branch, an address or the output check is reported
+                from vlib.runner import memcheck_replay
+                pr = build_probes(ctx, "vgv")
+                pl = [line for label, op, line in pr if op not in INTERNAL or op in ("sha256", "hmac")]
+                memcheck_replay(ctx, pl + pl[::-1], "probe_suite")
 
 def post(cov, viol, tier):
     mon = cov["monitors"]
